@@ -181,7 +181,7 @@ func (r *Response) Unmarshal(v interface{}) error {
 		return r.Err
 	}
 	v = util.GetPointer(v)
-	contentType := r.Header.Get("Content-Type")
+	contentType := r.GetContentType() // r.Response may be nil (no http response and no error recorded)
 	if strings.Contains(contentType, "json") {
 		return r.UnmarshalJson(v)
 	} else if strings.Contains(contentType, "xml") {
